@@ -1160,7 +1160,7 @@ CLAIM = {
             'remain premises), and the model is compared with orjson (through rxsci json.dump / json.load) on every run. '
             'The same for values holding finite floats (JsonFloat.v: C19_json_float_model_* and C19_modelf_*; -0.0 comes back as -0.0). '
             'C19_end_to_end_*: the whole modelled stack composed with NO premise left (orjson model with floats, UTF-8 codec model of C17, '
-            'no compression or the gzip model of C16 = stored-block compressor of the model + full inflate): any re-chunking, any read size, lines=False.',
+            'no compression, the gzip model of C16 = stored-block compressor of the model + full inflate, or the zstd frame model = raw-block encoder + frame scanner; utf-16 too): any re-chunking, any read size, lines=False.',
     'note': 'Trusted: Coq kernel+VM; hand-written model of json.py (tied by correspondence only); orjson, CPython codecs, '
             'zlib, zstandard, gzip module (not modelled; hypotheses of the theorem, tested not proved); the taps '
             '(monkey-patching in the harness process); items delivered before a stage error are not modelled; '
